@@ -264,6 +264,35 @@ def r9_pin_blobs_current(ctx, prog, rule_id='C15.R9'):
                         file=f['file'], line=f['line'])
 
 
+def r10_lock_type(ctx, prog, rule_id='C15.R10'):
+    """The object file is rewritten under its fcntl lock, and readers in other processes take the same lock: that excludes a reader from a half-written file only if a file opened
+    for writing takes an *exclusive* lock.  File::lock is evaluated for the three ways a file is opened (read, write, read+write)."""
+    r = ctx.rule(rule_id, 'a file opened for writing is locked exclusively (F_WRLCK), whatever else it is opened for', floor=3, engine='E1 finite-domain evaluation')
+    f = prog.fn('File::lock')
+    ctx.analysed(f)
+    WR, RD = macro(prog, 'F_WRLCK'), macro(prog, 'F_RDLCK')
+    for rd, wr in ((1, 0), (0, 1), (1, 1)):
+        o = Outcomes(f, prog, cenv={re.compile(r'isRead(@\d+)?\(.*\)'): rd, re.compile(r'isWrite(@\d+)?\(.*\)'): wr, 'isReadable': rd, 'isWritable': wr, 'locked': 0, 'valid': 1})
+        o.CAP = 32
+        o.go()
+        r.paths += len(o.outcomes)
+        site = 'opened read=%d write=%d' % (rd, wr)
+        types = set()
+        for oc in o.outcomes:
+            for e in oc['events']:
+                if e[0] == 'write' and re.search(r'l_type$', e[1]):
+                    types.add(str(e[2]))
+        want = str(WR) if wr else str(RD)
+        names = {str(WR): 'F_WRLCK', str(RD): 'F_RDLCK'}
+        if not types:
+            r.undecided(f['qname'], site, 'no assignment of the lock type was followed', file=f['file'], line=f['line'])
+        elif types != {want} and types != {names[want]}:
+            r.violation(f['qname'], site, 'the lock type is %s, required %s: %s' % ('/'.join(sorted(names.get(t, t) for t in types)), names[want],
+                        'a writer that rewrites the file does not exclude readers in other processes - they parse the half-written file and drop a live object' if wr else 'a reader excludes other readers'), file=f['file'], line=f['line'])
+        else:
+            r.ok(f['qname'], site, names[want], file=f['file'], line=f['line'])
+
+
 def run(ctx):
     prog = ctx.prog('ossl-file')
     r1_chain(ctx, prog)
@@ -278,6 +307,7 @@ def run(ctx):
     c09.r2_pairing(ctx, prog, rule_id='C15.R7')
     r8_transactions_start_from_disk(ctx, prog)
     r9_pin_blobs_current(ctx, prog)
+    r10_lock_type(ctx, prog)
 
 
 MUTANTS = [
